@@ -155,6 +155,10 @@ SSilent ==
        \/ IsSubmit("hdr") /\ SnapHAt
        \/ IsSubmit("data") /\ pcD = "try" /\ remD # Offered /\ SnapMatchD /\ GiveUpD
        \/ IsSubmit("data") /\ SnapDAt
+       \* a pass that ended without another offer (its last attempt was answered "canceled"): the next pass begins by
+       \* moving the watermark over leading empty blocks - that write is the next record
+       \/ /\ Ready /\ e.ev = "KV" /\ e.kind = "meta" /\ e.key = "last-submitted-data-height" /\ pcD = "try" /\ e.h > dwmD
+          /\ GiveUpD
 
 \* ---------------------------------------------------------------- projection
 MarkHs(o) == {o.mH[i].h : i \in 1 .. Len(o.mH)}
